@@ -6,6 +6,7 @@ import Driver.Parse
 import Driver.Query
 import Driver.Stmts
 import Driver.Fuzz
+import Driver.Memo
 
 def main (args : List String) : IO UInt32 := do
   match args with
@@ -17,6 +18,7 @@ def main (args : List String) : IO UInt32 := do
   | ["query", mode] => Driver.Query.main mode; return 0
   | ["stmts"] => Driver.Stmts.main; return 0
   | ["fuzz"] => Driver.Fuzz.main; return 0
+  | ["memo"] => Driver.Memo.main; return 0
   | _ =>
     IO.eprintln "usage: bwdriver <protocol>"
     return 2
